@@ -81,6 +81,7 @@ type HistRunner struct {
 	mboxes     []string // names == remote ids except INBOX ("0")
 	// per history
 	expungeDuring map[string]int
+	followUp      []string // steps the generator has committed to emit next (multi-step patterns)
 	racy          bool // X RACY seen: session commands do not wait for in-flight updates
 }
 
@@ -423,6 +424,7 @@ func (h *HistRunner) execSession(i int, op string, args []string, step string) e
 		}
 		kind := args[0]
 		line := strings.Join(args[1:], " ")
+		nBefore := len(s.mirror.msgs)
 		rep := s.c.Cmd(line)
 		if rep.Err != nil {
 			return fmt.Errorf("S%d %s: %w", i, line, rep.Err)
@@ -438,12 +440,7 @@ func (h *HistRunner) execSession(i int, op string, args []string, step string) e
 		}
 		h.feed(s, kind, rep.Untagged)
 		if kind == "STORE" && strings.Contains(strings.ToUpper(line), ".SILENT") {
-			// after its own .SILENT store the client no longer trusts the flags it had cached (weakest client
-			// assumption; the server sends nothing for the store itself)
-			for k := range s.mirror.msgs {
-				s.mirror.msgs[k].known = false
-			}
-			s.ev("Z")
+			h.forgetSilent(s, line, nBefore)
 		}
 		if (kind == "FETCH" || kind == "STORE" || kind == "SEARCH") && reExpungeIssued.MatchString(rep.Tagged) {
 			h.stats["expungeissued"]++
@@ -460,16 +457,14 @@ func (h *HistRunner) execSession(i int, op string, args []string, step string) e
 		}
 		kind := args[0]
 		line := strings.Join(args[1:], " ")
+		nBefore := len(s.mirror.msgs)
 		rep := s.c.Cmd(line)
 		if rep.Err != nil {
 			return rep.Err
 		}
 		h.feed(s, kind, rep.Untagged)
 		if kind == "STORE" && strings.Contains(strings.ToUpper(line), ".SILENT") {
-			for k := range s.mirror.msgs {
-				s.mirror.msgs[k].known = false
-			}
-			s.ev("Z")
+			h.forgetSilent(s, line, nBefore)
 		}
 		said := reExpungeIssued.MatchString(rep.Tagged)
 		before := h.expungeDuring["NOOP"]
@@ -542,6 +537,58 @@ func (h *HistRunner) execSession(i int, op string, args []string, step string) e
 		return nil
 	}
 	return fmt.Errorf("bad session step %q", step)
+}
+
+// forgetSilent: after its own `STORE <set> ….SILENT` the client no longer trusts the flags it had cached for the
+// messages the set named when the command was sent (the server sends nothing for the store itself; other
+// messages' flags stay known, so an unannounced change of those is still caught). UID STORE: all are forgotten.
+func (h *HistRunner) forgetSilent(s *HistSession, line string, nBefore int) {
+	f := strings.Fields(line)
+	var seqs []int
+	all := false
+	if len(f) < 2 || !strings.EqualFold(f[0], "STORE") {
+		all = true
+	} else {
+		for _, item := range strings.Split(f[1], ",") {
+			lohi := strings.SplitN(item, ":", 2)
+			num := func(x string) int {
+				if x == "*" {
+					return nBefore
+				}
+				n, err := strconv.Atoi(x)
+				if err != nil {
+					all = true
+				}
+				return n
+			}
+			lo := num(lohi[0])
+			hi := lo
+			if len(lohi) == 2 {
+				hi = num(lohi[1])
+			}
+			if lo > hi {
+				lo, hi = hi, lo
+			}
+			for k := lo; k <= hi && k <= nBefore+1; k++ {
+				seqs = append(seqs, k)
+			}
+		}
+	}
+	if all {
+		for k := range s.mirror.msgs {
+			s.mirror.msgs[k].known = false
+		}
+		s.ev("Z")
+		return
+	}
+	var parts []string
+	for _, k := range seqs {
+		if k >= 1 && k <= len(s.mirror.msgs) {
+			s.mirror.msgs[k-1].known = false
+		}
+		parts = append(parts, strconv.Itoa(k))
+	}
+	s.ev("Z" + strings.Join(parts, ","))
 }
 
 // feedProbe: a FETCH 1:* (UID FLAGS) answer. The command's own results are the first FETCH responses
@@ -702,6 +749,11 @@ func (h *HistRunner) newMarker() string {
 
 // GenStep picks the next step given the current state.
 func (h *HistRunner) GenStep(r *Rng, nsess int, profile string) string {
+	if len(h.followUp) > 0 {
+		st := h.followUp[0]
+		h.followUp = h.followUp[1:]
+		return st
+	}
 	if strings.Contains(profile, "race") && !h.racy && len(h.steps) == 0 {
 		return "X RACY"
 	}
@@ -757,10 +809,20 @@ func (h *HistRunner) GenStep(r *Rng, nsess int, profile string) string {
 			return fmt.Sprintf("C REMOVE %s %s", Pick(r, live), mb)
 		case k < 7:
 			return fmt.Sprintf("C ADD %s %s", Pick(r, live), mb)
-		case k < 8:
-			return fmt.Sprintf("C SEEN %s %d", Pick(r, live), r.Intn(2))
 		case k < 9:
-			return fmt.Sprintf("C FLAGGED %s %d", Pick(r, live), r.Intn(2))
+			step := fmt.Sprintf("C SEEN %s %d", Pick(r, live), r.Intn(2))
+			if k == 8 {
+				step = fmt.Sprintf("C FLAGGED %s %d", Pick(r, live), r.Intn(2))
+			}
+			if s.selected != "" && !s.idle && len(s.mirror.msgs) >= 2 && r.Chance(1, 2) {
+				// pattern: the observer knows all flags, a foreign flag change is delivered, and the observer's next
+				// flushing command is its own .SILENT store on some message: the foreign change must still be announced
+				h.followUp = append(h.followUp, step, "X BARRIER",
+					fmt.Sprintf("S%d CMD STORE STORE %d +FLAGS.SILENT (\\Draft)", i, r.Range(1, len(s.mirror.msgs))),
+					fmt.Sprintf("S%d PROBE", i))
+				return fmt.Sprintf("S%d PROBE", i)
+			}
+			return step
 		default:
 			return fmt.Sprintf("C DELETE %s", Pick(r, live))
 		}
@@ -804,6 +866,14 @@ func (h *HistRunner) GenStep(r *Rng, nsess int, profile string) string {
 		fl := Pick(r, storeFlagPool)
 		if r.Chance(1, 3) {
 			fl += " " + Pick(r, storeFlagPool)
+		}
+		if op == "FLAGS" && n >= 2 && r.Chance(1, 2) {
+			// pattern: replace the flags of several messages at once, then read one body (\Seen side effect) and probe:
+			// catches flag sets shared by reference between messages or sessions
+			h.followUp = append(h.followUp,
+				fmt.Sprintf("S%d CMD FETCH FETCH %d (BODY[])", i, r.Range(1, n)),
+				fmt.Sprintf("S%d PROBE", i), fmt.Sprintf("S%d PROBE", r.Intn(nsess)))
+			return fmt.Sprintf("S%d CMD STORE STORE 1:* FLAGS (%s)", i, Pick(r, []string{`\Flagged`, `\Answered`, `\Draft`}))
 		}
 		return fmt.Sprintf("S%d CMD STORE STORE %s %s (%s)", i, set, op, fl)
 	case c < 64:
